@@ -393,7 +393,7 @@ class SQLiteProvider(DBAPIProvider):
                     sql = 'PRAGMA foreign_keys = false'
                     if core.local.debug: log_orm(sql)
                     cursor.execute(sql)
-                cache.saved_fk_state = bool(fk)
+                if fk or cache.saved_fk_state is None: cache.saved_fk_state = bool(fk)
                 assert cache.immediate
 
             if cache.immediate:
